@@ -410,7 +410,7 @@ func serveOptions(c *Ctx, ec *eCase) {
 
 func genEngineCases(c *Ctx) []string {
 	var ls []string
-	ls = append(ls, genScenarioCases(c, c.Pick(120, 2400))...)
+	ls = append(ls, genScenarioCases(c, c.Pick(200, 3000))...)
 	n := c.Pick(400, 8000)
 	for i := 0; i < n; i++ {
 		ec := &eCase{mode: "long", root: "root"}
@@ -640,14 +640,17 @@ func scenCroak(c *Ctx) *eCase {
 func scenLang(c *Ctx) *eCase {
 	r := c.Rng
 	ec := newScenario(0)
-	code := []string{"nor", "no", "fra", "eng", "en", "zzzz", "", "ger", "fre", "de", "deu"}[r.Intn(11)]
+	// the codes are walked in turn (unknown ones first), so that even a small batch meets an unknown selection followed by an
+	// ordinary value that happens to be a language code
+	tick0 := c.Counts["gen:scenLang"]
+	code := []string{"zzzz", "nor", "", "no", "fra", "eng", "en", "ger", "fre", "de", "deu"}[tick0%11]
 	ec.node("root", "Welcome", GInstr{Op: "MOUT", A: "pick", B: "1"}, GInstr{Op: "MOUT", A: "show", B: "2"}, GInstr{Op: "HALT"},
 		GInstr{Op: "INCMP", A: "pick", B: "1"}, GInstr{Op: "INCMP", A: "show", B: "2"})
 	ec.node("pick", "Picked {{.greet}}", GInstr{Op: "LOAD", A: "setlang", N: 0}, GInstr{Op: "LOAD", A: "greet", N: 0}, GInstr{Op: "MAP", A: "greet"},
 		GInstr{Op: "MOUT", A: "back", B: "0"}, GInstr{Op: "HALT"}, GInstr{Op: "INCMP", A: "_", B: "0"})
 	ec.node("show", "Show {{.greet2}}", GInstr{Op: "LOAD", A: "greet2", N: 0}, GInstr{Op: "MAP", A: "greet2"}, GInstr{Op: "LOAD", A: "country", N: 0},
 		GInstr{Op: "MOUT", A: "back", B: "0"}, GInstr{Op: "HALT"}, GInstr{Op: "INCMP", A: "_", B: "0"})
-	ec.exts = append(ec.exts, extRule{sym: "country", callIdx: -1, content: []string{"no", "fra", "de", "sw"}[r.Intn(4)]}) // not a language selection: no LANG flag
+	ec.exts = append(ec.exts, extRule{sym: "country", callIdx: -1, content: []string{"no", "fra", "de", "sw"}[(tick0/2+tick0)%4]}) // not a language selection: no LANG flag
 	ec.catchNode()
 	for _, l := range []string{"nor", "fra", "eng", "deu"} {
 		ec.tpls = append(ec.tpls, tblEntry{strp(l), "pick", "[" + l + "] {{.greet}}"}, tblEntry{strp(l), "root", "[" + l + "] root"}, tblEntry{strp(l), "show", "[" + l + "] {{.greet2}}"})
@@ -656,7 +659,7 @@ func scenLang(c *Ctx) *eCase {
 	}
 	ec.exts = append(ec.exts, extRule{sym: "greet", callIdx: -1, content: "hello-default"}, extRule{sym: "greet2", callIdx: -1, content: "again-default"},
 		extRule{sym: "setlang", callIdx: -1, content: code, set: []uint32{7}})
-	if r.Intn(4) == 0 {
+	if tick0%4 == 3 {
 		ec.lang = []string{"nor", "eng", "fra"}[r.Intn(3)]
 	}
 	tick := c.Counts["gen:scenLang"]
